@@ -104,6 +104,11 @@ func (self *Interpreter) letStatement(node ast.AnalyzedLetStatement) *value.Inte
 func (self *Interpreter) loopStatement(node ast.AnalyzedLoopStatement) *value.Interrupt {
 loop:
 	for {
+		// an empty body evaluates nothing that would notice a cancelation
+		if i := self.checkCancelation(node.Span()); i != nil {
+			return i
+		}
+
 		_, i := self.block(node.Body, true)
 		if i != nil {
 			switch (*i).Kind() {
